@@ -441,8 +441,10 @@ def run_item(item, ctx, tmp, only=None):
     for file_type in ('hdf5', 'pkl'):
         ext = '.hdf5' if file_type == 'hdf5' else '.pkl'
         for target_kind in ('path', 'handle'):
-            for history in ('fresh', 'existing'):
+            for history in ('fresh', 'existing', 'same-handle'):
                 for overwrite in (False, True):
+                    if history == 'same-handle' and not (target_kind == 'handle' and overwrite):
+                        continue
                     step = [file_type, target_kind, history, overwrite]
                     if only is not None and step != only:
                         continue
@@ -467,7 +469,13 @@ def run_item(item, ctx, tmp, only=None):
                             old_bytes = open(path, 'rb').read()
                         expect_refusal = (history == 'existing' and not overwrite and file_type == 'hdf5'
                                           and target_kind == 'path')
-                        if target_kind == 'path':
+                        if history == 'same-handle':
+                            # two consecutive saves through ONE open handle: the second one (overwrite)
+                            # starts with the position at the end of the first object
+                            fh = open(path, 'w+b')
+                            save(kind, _other(kind, ctx.seed), fh, file_type, False)
+                            target = fh
+                        elif target_kind == 'path':
                             target = path
                             fh = None
                         else:
